@@ -303,7 +303,9 @@ class VariableSizedTiles:
     def __dask_tokenize__(self):
         return (
             "odc.geo.roi.VariableSizedTiles",
-            *self._offsets,
+            # plain lists: dask derives the token from `str()` of this tuple
+            # and numpy abbreviates large arrays with "..."
+            *(offsets.tolist() for offsets in self._offsets),
         )
 
     def __str__(self) -> str:
